@@ -119,8 +119,14 @@ def KState.checkDeclaration (s : KState) (creator : Option Key) (path : String) 
   | none => pure true
   | some (r, c) =>
     match creator with
-    | some k => if r = role ∧ c = k then pure false else graphErr "claim collision"
-    | none => graphErr "claim collision"
+    | some k =>
+      if r = role ∧ c = k then pure false
+      -- `_creator_phrase` has no phrase for a static tree: the collision message cannot be
+      -- composed and a `ConsistencyError` comes out instead of the `GraphError`
+      else if k.kind = .st then throw .consistency
+      else if c.kind = .st ∧ role = .static then throw .consistency
+      else graphErr "claim collision"
+    | none => if c.kind = .st ∧ role = .static then throw .consistency else graphErr "claim collision"
 
 def KConfig.forbiddenTarget (cfg : KConfig) (path : String) (st : FileState) : Bool :=
   cfg.targets.contains path && Enums.targetForbiddenStates.contains st
@@ -784,6 +790,19 @@ def KState.resetInterrupted (s : KState) : M KState := do
     (fun st n => st.writeStepState n.key .pending none) st
   (st.nodes.filter fun n => n.key.kind = .step ∧ !n.detached ∧ n.sstate = .failed).foldlM
     (fun st n => st.markStepPending n.key) st
+
+/-- An attached output of `step` that is neither BUILT nor VOLATILE. -/
+def KState.hasUnbuiltOutput (s : KState) (step : Key) : Bool :=
+  s.deps.any fun d => d.src = step &&
+    (match s.find? d.snk with
+     | some f => f.key.kind = .file && !f.detached && f.fstate ≠ .built && f.fstate ≠ .volatile
+     | none => false)
+
+/-- The repairing part of `Workflow._check_consistency` (run by `initialize()` on an existing
+database, not in strict mode): a SUCCEEDED step with such an output has to run again. -/
+def KState.checkConsistency (s : KState) : M KState :=
+  (s.nodes.filter fun n => n.key.kind = .step ∧ n.sstate = .succeeded ∧ s.hasUnbuiltOutput n.key).foldlM
+    (fun st n => st.markStepPending n.key) s
 
 /-- `startup.rescan_env_vars` against the director's current environment. -/
 def KState.rescanEnvVars (s : KState) (cfg : KConfig) : M KState := do
